@@ -217,6 +217,31 @@ def readLine (st : St) (key : String) (mObs mFull : String) (specOf : Graph → 
 
 def parseNat (s : String) : Option Nat := s.toNat?
 
+/-- value tokens the log refuses (harness: `S<n>` = string of n bytes, `D<n>` = n nested lists):
+    a record larger than 1 MiB, a value nested deeper than 128 -/
+def unloggableTok (v : Nat) : Bool :=
+  let t := decodeTok v
+  if t.startsWith "S" then (match (t.drop 1).toNat? with | some n => n > 1000000 | none => false)
+  else if t.startsWith "D" then (match (t.drop 1).toNat? with | some n => n > 128 | none => false)
+  else false
+
+def unloggableRec : WalRec → Bool
+  | .setNodeProperty _ _ v => unloggableTok v
+  | .setEdgeProperty _ _ v => unloggableTok v
+  | _ => false
+
+/-- the records `commit` appends before the CommitTx -/
+def commitRecs (c : Cfg) (t : Txn) : List WalRec :=
+  WalRec.beginTx t.txid :: c.commitOrder.flatMap (t.recordsOf (t.mt.freeze t.txid))
+
+/-- a commit that fails at its `j`-th log append: the engine keeps the log prefix, the history an abandoned transaction -/
+def failCommit (st : St) (s : Engine) (t : Txn) (j : Nat) : St × String × String × String :=
+  let st := match st.shadow, st.shTxn with
+    | some sh, some _ => { st with shadow := some sh }
+    | _, _ => st
+  ok3 { st with eng := some (s.commitFail st.cfg t j), txn := none, shTxn := none,
+                hist := st.hist ++ [.tx st.cur false], cur := [] } "err"
+
 /-- a trailing `@tag` (history hash) is not part of the operation -/
 def stripTag (ws : List String) : List String :=
   match ws.getLast? with
@@ -291,9 +316,19 @@ def step (st : St) (ws0 : List String) : St × String × String × String :=
       let vs := (v.splitOn ",").map encodeTok
       ok3 (stage st (.vec n vs)) "ok"
     | _, _ => noTxn
+  | ["commit_fault", j] =>
+    match parseNat j, st.eng, st.txn with
+    | some j, some s, some t =>
+      if j ≤ (commitRecs st.cfg t).length then failCommit st s t j
+      else ok3 st "bad-op"     -- the generator keeps the fault inside the log appends
+    | none, _, _ => ok3 st "bad-op"
+    | _, _, _ => noTxn
   | ["commit"] =>
     match st.eng, st.txn with
     | some s, some t =>
+      match (commitRecs st.cfg t).findIdx? unloggableRec with
+      | some j => failCommit st s t j
+      | none =>
       let (s, okc) := s.commit st.cfg t
       let st := match st.shadow, st.shTxn with
         | some sh, some t => { st with shadow := some (sh.commit st.cfg t).1 }
